@@ -333,7 +333,7 @@ pub proof fn lemma_match_step(hs: Seq<Hunk<&[u8]>>, d: PatchDirection, limit: in
         st_off(reports.push(r), i + 1) == (if r is Applied { r->offset as int } else { st_off(reports, i) }),
         st_frozen(hs, d, reports.push(r), i + 1) == (if r is Applied { rep_core_end(hs[i], d, r) } else { st_frozen(hs, d, reports, i) }),
         any_failed_spec(reports.push(r), i + 1) == (any_failed_spec(reports, i) || r is Failed),
-        normal && r is Applied ==> -BIG() < r->offset < BIG() && -1 <= rep_core_end(hs[i], d, r) <= c.len(),
+        normal && r is Applied ==> -LBIG() < r->offset < BIG() && -1 <= rep_core_end(hs[i], d, r) <= c.len(),
 {
     reveal(match_inv);
     let r2 = reports.push(r);
